@@ -75,7 +75,7 @@ class Inst:
 def default_inst(kind: str, variant: int = 0, rng: np.random.Generator | None = None) -> Inst:
     if variant == 0:
         a = np.linspace(0, 1.0, 6) ** 2
-        b = np.linspace(0, 1.4, 6) ** 2
+        b = np.linspace(0, 1.0, 6)   # same length, same first and last time as A, different interior
         c = np.linspace(0, 1.2, 9) ** 2
         return Inst(kind, 8, 1000.0, 8000.0, {"A": a, "B": b, "C": c}, np.linspace(4000.0, 1200.0, 6))
     rng = rng or np.random.default_rng(variant)
@@ -108,7 +108,15 @@ def default_inst(kind: str, variant: int = 0, rng: np.random.Generator | None = 
     s = np.sort(rng.uniform(min(300.0, pf), hi, n1))[::-1].copy()
     if rng.random() < 0.3:
         rng.shuffle(s)
-    return Inst(kind, int(rng.integers(3, 25)), pf, pi, {"A": grid(n1), "B": grid(n1), "C": grid(n2)}, s,
+    ga = grid(n1)
+    gb = grid(n1)
+    if rng.random() < 0.5 and ga.dtype == np.float64 and n1 >= 3:
+        # B shares A's end points (and length) but not its interior: "the same grid" cannot be decided from a summary
+        w = np.sort(rng.uniform(0, 1, n1 - 2))
+        gb = np.concatenate([[ga[0]], ga[0] + (ga[-1] - ga[0]) * w, [ga[-1]]])
+        if not np.all(np.diff(gb) > 0) or np.array_equal(ga, gb):
+            gb = grid(n1)
+    return Inst(kind, int(rng.integers(3, 25)), pf, pi, {"A": ga, "B": gb, "C": grid(n2)}, s,
                 table=str(rng.choice(["pvt_gas", "haynesville"])))
 
 
